@@ -291,7 +291,9 @@ pub(crate) fn zero_padded_i(number: i32, length: usize) -> String {
 
 /// Formats a number as a zero padded string
 pub(crate) fn zero_padded(number: u32, length: usize) -> String {
-    format!("{:0width$}", number, width = length)
+    // Pad manually, a formatting width is limited to u16::MAX and panics above it
+    let digits = number.to_string();
+    format!("{}{}", "0".repeat(length.saturating_sub(digits.len())), digits)
 }
 
 /// Determines length of formatting part based on actual, default and max length
